@@ -150,7 +150,7 @@ theorem rpcRenew2_clearing_safe {fx : Bool} {rh expUH h : Nat} {e r : Rev} {fv :
     (hh : rpcRenew2 fx rh e r fv expUH h st sg = .ok rec) (hU : e.revNo ≤ maxRev)
     (hwf : fx = false → e.valid.length = 2) :
     ∃ clearing pay, clearingRevision e fv = .ok clearing ∧ ∀ c ∈ clearingClauses e clearing pay, c.2 = true := by
-  unfold rpcRenew2 at hh
+  unfold rpcRenew2 rpcRenew2Body at hh
   res_ok' at hh
   obtain ⟨_, hlock, hrh, clearing, hclr, evr, _, fp, hfp, _⟩ := hh
   exact ⟨clearing, _, hclr, validateClearing_accept_safe hfp hU (fun hf => ⟨hwf hf, hlock⟩)⟩
@@ -513,7 +513,7 @@ theorem sessOp_rejects_when_cleared {fx : Bool} {F : SessFacts} {s : Sess} (o : 
     simp only [sessOp, sessRenew]
     split
     · rename_i rec heq
-      unfold rpcRenew2 at heq
+      unfold rpcRenew2 rpcRenew2Body at heq
       res_ok' at heq
       exact absurd hc heq.2.1
     · rfl
